@@ -23,6 +23,7 @@ DOC = {
         'C05.R6': 'run_script counts only successes: Result<FileLen> is turned into a count only through filter_map(Result::ok)',
         'C05.R7': 'error discipline: no io::Result in dedupe.rs/reflink.rs/lock.rs is discarded (named exceptions)',
         'C05.R8': 'the temporary is a sibling: temp_file derives from path.parent() and path.file_name(), has a random suffix, and its length is bounded (file-name part clamped so that name + suffix <= 255 bytes)',
+        'C05.R11': 'timestamps restored: reflink() remembers the time stamps of the parent directory, works in it and writes them back; the commands of different groups run in parallel, so that snapshot .. restore section is exclusive per directory (a lock taken before the snapshot and released after the restore), otherwise one command remembers or restores what another one has just changed',
         'C05.R10': 'no buffered writer (BufWriter/LineWriter, also inside another value) in dedupe.rs/reflink.rs/lock.rs/main.rs is dropped on a success path without a checked flush: its drop discards the error of the last write, after which the source would be removed (expected instances on this tree: 0; engine control in the fixture crate)',
         'C05.R9': 'the primitive wrappers are what their callers assume: remove = remove_file(path); unsafe_rename = rename(source, target); unsafe_copy = copy(source, target); hardlink = hard_link(target, link); symlink_internal = symlink(target, link); mkdirs = create_dir_all(path); each is the only mutating primitive in its wrapper and its error is returned',
     },
@@ -46,6 +47,7 @@ def run(ctx):
     r8b(ctx, lib)
     r9(ctx, lib)
     r10(ctx, lib)
+    r11(ctx, lib)
     from .common import run_mandatory
     run_mandatory(ctx, 'C05')
     if ctx.tier == 'thorough' and not getattr(ctx, 'sibling', None):
@@ -539,6 +541,65 @@ def r8b(ctx, lib):
     ctx.check(pmax and bool(whole), rule, b.path + '|bounded-path', b.where(), 'the kept part of the name also shrinks so that the whole temporary path stays within PATH_MAX',
               'only the NAME of the temporary sibling is bounded: the 25 bytes of the suffix are added to the length of the whole PATH as well, so for a file whose path is longer than PATH_MAX - 26 '
               '(4070 bytes; legal, scanned, reported, and `remove` unlinks it) the rename in safe_remove fails with ENAMETOOLONG: `link` / `link --soft` can never process the file although --dry-run lists it')
+
+
+def r11(ctx, lib):
+    rule = 'C05.R11'
+    b = ctx.need_body(rule, 'reflink::reflink')
+    if b is None:
+        return
+    from ..callgraph import CallGraph
+    cg = CallGraph([lib])
+    bodies = [b] + [lib.body(cp) for cp in lib.closures_of(b.path)]
+    def where_in_b(x, c):
+        """block of b at which the call c (in b or in a closure of b) happens: the call that the closure is handed to"""
+        if x.path == b.path:
+            return c.bb
+        cr = closure_creation(lib, x.path)
+        if not cr or cr[0].path != b.path:
+            return None
+        fl = forward_locals(b, cr[2]['p'][0]) | {cr[2]['p'][0]}
+        for k in b.calls():
+            if any(op_local(a) in fl for a in k.args):
+                return k.bb
+        return None
+    # the snapshot: metadata() of the parent; the restore: restore_metadata(parent ..)
+    snaps = [(x, c) for x in bodies for c in x.calls(r'Path(Buf)?::metadata$|^std::fs::metadata$|Path(Buf)?::symlink_metadata$')]
+    rest = [c for c in b.calls(r'^reflink::restore_metadata$')] + [c for x in bodies[1:] for c in x.calls(r'^reflink::restore_metadata$')]
+    parent_rest = []
+    for x in bodies:
+        for c in x.calls(r'^reflink::restore_metadata$'):
+            sl = backslice(x, [c.args[0]])
+            if sl.has_call(r'path::Path::parent$') or any(n in ('parent', 'dest_parent') for _, n in sl.upvars) or any(b.local_name(l) in ('parent', 'dest_parent') for l in sl.locals if x.path == b.path):
+                parent_rest.append((x, c))
+    if not snaps or not parent_rest:
+        ctx.missing(rule, 'snapshot / restore of the parent directory in reflink()', b.where())
+        return
+    # a lock: a call (direct, in a closure, or through a local helper) that reaches Mutex::lock / RwLock::write
+    LOCK = r'Mutex<.*>::lock$|Mutex::<T>::lock$|RwLock.*::write$|ReentrantMutex.*::lock$'
+    def locks(x, c):
+        if c.matches(LOCK):
+            return True
+        if c.f.get('local') and c.path in cg.bodies:
+            return any(cg.bodies[k].calls(LOCK) for k in cg.reachable([c.path]))
+        return False
+    lk = [(x, c) for x in bodies for c in x.calls() if locks(x, c)]
+    s_bb = [where_in_b(x, c) for x, c in snaps]
+    s_bb = [v for v in s_bb if v is not None]
+    r_bb = [where_in_b(x, c) for x, c in parent_rest]
+    r_bb = [v for v in r_bb if v is not None]
+    l_bb = [where_in_b(x, c) for x, c in lk]
+    l_bb = [v for v in l_bb if v is not None]
+    first_snap = [v for v in s_bb if not any(v in b.reachable(o) and v != o for o in s_bb)]
+    before = bool(l_bb) and bool(first_snap) and any(all(sv in b.reachable(lv) and lv not in b.reachable(sv) for sv in first_snap) for lv in l_bb)
+    # the guard lives until the restore: no drop of a guard from which the restore of the parent is still to come
+    drops = [bi for bi, blk in enumerate(b.blocks) if not blk['cleanup'] and blk['term']['k'] == 'drop' and re.search(r'MutexGuard|RwLockWriteGuard', b.local_ty(blk['term']['p'][0]))]
+    early = [d for d in drops if any(rv in b.reachable(d) for rv in r_bb)]
+    ctx.check(before and bool(drops) and not early, rule, b.path + '|directory-section-exclusive', (b.where(b.blocks[early[0]]['term']['line']) if early else (lk[0][1].where() if lk else b.where())),
+              'the snapshot .. restore section on the parent directory is taken under a lock that is held until the restore',
+              'reflink() remembers the time stamps of the parent directory, creates and removes its temporary file there and writes the remembered values back - while the commands of other groups do the '
+              'same in the same directory at the same time: the second command takes its snapshot after the first has created its temporary file (it remembers "now"), and when it finishes last it '
+              '"restores" that: `dedupe` of 300 pairs changes the modification time of the directories it promises to keep in 5 runs of 5 - also when every command fails - and never with one thread')
 
 
 WRAPPERS = {
